@@ -1187,23 +1187,30 @@ func (g *c09Rig) runCase(tr *c09Trace, smp c09Sampler, variants []c09Variant, or
 			}
 			pairs := c09TypePairs(p.Fields, sa, sb, rootIdx, -1)
 			if len(pairs) > 1 {
-				// narrow down: re-encode one span at a time
+				// narrow down: re-encode only the spans that show one wire-type class
 				var narrowed []string
-				for i := 0; i < n; i++ {
-					h := c09Variant{Name: fmt.Sprintf("hybrid-%d", i), Shuffle: v.Shuffle, Enc: append([]c09Enc(nil), ref.Enc...)}
-					h.Enc[i] = v.Enc[i]
-					eh, sh, ph, _ := g.decide(pc, tr, h, ident)
+				for _, cls := range pairs {
+					h := c09Variant{Name: "hybrid-" + cls, Shuffle: v.Shuffle, Enc: append([]c09Enc(nil), ref.Enc...)}
+					for i := 0; i < n; i++ {
+						for _, pr := range c09TypePairs(p.Fields, sa, sb, rootIdx, i) {
+							if pr == cls {
+								h.Enc[i] = v.Enc[i]
+							}
+						}
+					}
+					eh, _, ph, _ := g.decide(pc, tr, h, ident)
 					if ph != "" {
 						continue
 					}
 					if same, _ := c09Same(ea.Out, eh.Out); !same {
-						narrowed = append(narrowed, c09TypePairs(p.Fields, sa, sh, rootIdx, i)...)
+						narrowed = append(narrowed, cls)
 					}
 				}
+				// no single class reproduces it: the disagreement needs several of them at
+				// once (e.g. a trace-scope condition satisfied by an integer on one span and
+				// by a float on another); every class involved is named
 				if len(narrowed) > 0 {
 					pairs = narrowed
-				} else {
-					pairs = []string{"mixed-encodings"}
 				}
 			}
 			if len(pairs) == 0 {
